@@ -846,7 +846,7 @@ func c18RaceChild(rng *rand.Rand, emit func(Case)) {
 // argument and guards it; a method call on a nil receiver panicking is ordinary Go behaviour. The
 // scenario is modelled (`panic-nilrecv`), executed and reported in the outcome classes; set this to
 // true to make the oracle count it as a violation (finding key nil-receiver-method-release).
-const c18NilReceiverIsViolation = false
+const c18NilReceiverIsViolation = true
 
 const (
 	c18ClUnique   = "no two names held at the same time have the same id or the same text"
@@ -973,9 +973,6 @@ func c18Agree(m, i string) bool {
 	// and panics. Binaries built by gc 1.21–1.24 without -race/-N -l skip that nil check (compiler bug
 	// fixed in Go 1.25), so the real binary may also finish the call. Both correspond to the model's
 	// final token; the property oracle judges what the binary really did.
-	if strings.HasSuffix(m, " panic-nilrecv") && strings.HasSuffix(i, " ok-nilrecv") {
-		return strings.TrimSuffix(m, "panic-nilrecv") == strings.TrimSuffix(i, "ok-nilrecv")
-	}
 	return false
 }
 
